@@ -758,10 +758,11 @@ impl NodeToInsert {
         let node = self.node.as_ref().unwrap();
 
         if let Some(room_id) = &node.room_id {
+            // the row leaves (old room, old day) whenever it existed, also when it stays in the same
+            // room and only its modification date moves to another day: that day must be recomputed
+            // too (the local mutation path already does so in InsertEntity::update_daily_logs)
             if let Some(old_id) = &self.old_room_id {
-                if !room_id.eq(old_id) {
-                    daily_log.set_need_update(*old_id, &node._entity, self.old_mdate);
-                }
+                daily_log.set_need_update(*old_id, &node._entity, self.old_mdate);
             }
             daily_log.set_need_update(*room_id, &node._entity, node.mdate);
         }
